@@ -5,6 +5,7 @@ pub mod c06;
 pub mod c07;
 pub mod c08;
 pub mod c09;
+pub mod c10;
 pub mod c11;
 pub mod c13;
 pub mod c14;
@@ -23,6 +24,7 @@ pub fn by_id(id: &str) -> Option<Box<dyn Property>> {
         "C07" => Box::new(c07::C07),
         "C08" => Box::new(c08::C08),
         "C09" => Box::new(c09::C09),
+        "C10" => Box::new(c10::C10),
         "C11" => Box::new(c11::C11),
         "C13" => Box::new(c13::C13),
         "C14" => Box::new(c14::C14),
